@@ -450,7 +450,7 @@ func genReconn(r *Rng, prop string) *Scenario {
 		case "cutAt", "silentFrom":
 			f.AtUs = r.between(0, lastOp+2*maxBackoff)
 		case "connackRefuse":
-			f.Code = byte(r.between(1, 5))
+			f.Code = []byte{1, 2, 3, 4, 5, 1, 2, 3, 4, 5, 6, 0x80, 0x84, 0xFF}[r.IntN(14)]
 		}
 		sc.Faults = append(sc.Faults, f)
 	}
